@@ -174,7 +174,8 @@ func TestCheck(t *testing.T) {
 			"outputs are concrete values (nil pointers / absent keys off the used paths, also inside dynamic values; at most one hostile element on a "+
 			"used path: at any interface-typed position of the path a nil / typed nil / non-container / map with non-string key / struct or map that "+
 			"lacks a step at any depth below concretely typed fields, elements of typed maps or run-time made structs / a look-alike struct / a value of "+
-			"another type or nil at the end). 40% of the cases get one overlapping declaration; the set without it must compile (else the case is skipped). "+
+			"another type or nil at the end). 40% of the cases get one overlapping declaration; the set without it must compile (else the case is skipped); "+
+			"4% of the others get one path that leaves the declared types (refused by Compile, or every run must return an error). "+
 			"Every case is compiled in all declaration orders (<=4 declarations; 24 random orders above), 3x each. Non-trivial = the declaration set overlaps and >=2 "+
 			"orders were compiled, or it does not overlap, was accepted, has >=2 declarations or a nested path, and two accepted orders were "+
 			"each run 3x with Invoke and 6x in stream mode (3 chunkings), every run compared with the reference, the predecessor outputs "+
@@ -324,6 +325,13 @@ func runCase(ctx context.Context, rep *mon.Reporter, rng *mon.Rand, c *Case, idx
 	}
 
 	rep.Count("nonoverlap_sets", 1)
+	if c.Ill != "" {
+		if len(accepted) == 0 {
+			rep.Count("sets_with_a_path_outside_the_declared_types_rejected", 1)
+			return
+		}
+		rep.Count("sets_with_a_path_outside_the_declared_types_accepted_and_run", 1)
+	}
 	if len(accepted) == 0 {
 		rep.Count("nonoverlap_sets_rejected", 1)
 		rep.Distinct("nonoverlap_reject_reasons", short(firstErr, 40))
@@ -481,6 +489,10 @@ func runCase(ctx context.Context, rep *mon.Reporter, rng *mon.Rand, c *Case, idx
 // attribute: the input class a failure of one run is attributed to (naming only; the
 // verdict never depends on it).
 func (c *Case) attribute(mode string, e *expectation, o *outcome) string {
+	if c.Ill != "" {
+		// the set should not have been accepted at all
+		return c.Ill
+	}
 	refClass := ""
 	if e != nil && (e.May || e.Must) {
 		refClass = e.Class
@@ -512,6 +524,11 @@ func (c *Case) attribute(mode string, e *expectation, o *outcome) string {
 			}
 		}
 		return refClass
+	}
+	if strings.Contains(site, "convertTo") && (c.Struct == fTwoBelowEntry || c.Struct == fBelowEmbedded) {
+		// raised while assigning below an entry of a map with struct elements: the structure is what fails,
+		// whatever else the reference found in this run (e.g. a nil in a partial stream chunk)
+		return c.Struct
 	}
 	if e != nil && strings.Contains(site, "convertTo") {
 		// raised while assigning: an untyped nil that reached a typed position is the one finding of the
